@@ -21,7 +21,7 @@ ERE_META = "^.[]$()|*+?{}\\"
 def run(ctx):
     ctx.clause = ("names taken from a whitelist become literal, anchored alternatives of the generated pattern: every "
                   "ERE metacharacter is escaped and no name reaches the pattern unescaped")
-    ctx.rules = ["R-RXESC/E1", "R-RXESC/E2", "R-RXESC/E3"]
+    ctx.rules = ["R-RXESC/E1", "R-RXESC/E2", "R-RXESC/E3", "R-OPTARITY", "R-KEEPDROP"]
     P = ctx.program(UNITS)
     g = P.fn1("abigail::regex::generate_from_strings")
     ctx.analysed(g)
@@ -71,31 +71,41 @@ def run(ctx):
     missing = [c for c in ERE_META if specials is None or c not in specials]
     ctx.ob("R-RXESC/E2", "escape: specials covers every ERE metacharacter", not missing, e.loc(),
            "specials = %r; missing: %s" % (specials, missing or "none"))
-    # backslash insertion guarded by find(...) != npos ; the character inserted unconditionally in the loop
+    # Two recognised implementations of the copy loop; anything else is "analysis broken" (the rule cannot read it),
+    # never a violation:
+    #  A. per character:  for each c: if (specials.find(c) != npos) os << '\\'; os << c;
+    #  B. chunked:        pos = str.find_first_of(specials[, resume]); write(run before pos); os << '\\' << str[pos];
+    #                     start = pos + 1; ...; write(tail from start)
     loops = [n for n in e.nodes() if n["k"] in ("ForStmt", "CXXForRangeStmt", "WhileStmt")]
-    ok_guard = ok_char = False
-    for lp in loops:
-        body = lp["c"][-1]
-        for x in walk(body):
-            if x["k"] == "IfStmt":
-                cond = x["c"][0]
-                has_find = any(y["k"] == "CXXMemberCallExpr" and (e.decl(y) or {}).get("n") in ("find", "find_first_of")
-                               for y in walk(cond))
-                bs = any(y["k"] == "CharacterLiteral" and y.get("v") == 92 for y in walk(x["c"][1])) or \
-                    any(y["k"] == "StringLiteral" and y.get("s") == "\\" for y in walk(x["c"][1]))
-                if has_find and bs:
-                    ok_guard = True
-        # an insertion of *i that is a direct statement of the loop body (not under the if)
-        stmts = body.get("c", []) if body["k"] == "CompoundStmt" else [body]
-        for s in stmts:
-            if s is not None and s["k"] == "CXXOperatorCallExpr" and s.get("op") == "<<":
-                a = strip_casts(call_args(s)[1])
-                if a is not None and a["k"] in ("CXXOperatorCallExpr", "UnaryOperator", "DeclRefExpr"):
-                    ok_char = True
-    ctx.ob("R-RXESC/E2", "escape: backslash inserted exactly for members of specials", ok_guard, e.loc(),
-           "the `\\\\` insertion is guarded by a lookup in specials")
-    ctx.ob("R-RXESC/E2", "escape: every character is copied", ok_char, e.loc(),
-           "the character itself is inserted on every iteration")
+    finds = [y for y in e.nodes() if y["k"] == "CXXMemberCallExpr" and (e.decl(y) or {}).get("n") == "find_first_of"]
+    if finds:
+        _escape_chunked(ctx, e, finds)
+    else:
+        ok_guard = ok_char = False
+        for lp in loops:
+            body = lp["c"][-1]
+            for x in walk(body):
+                if x["k"] == "IfStmt":
+                    cond = x["c"][0]
+                    has_find = any(y["k"] == "CXXMemberCallExpr" and (e.decl(y) or {}).get("n") == "find"
+                                   for y in walk(cond))
+                    bs = any(y["k"] == "CharacterLiteral" and y.get("v") == 92 for y in walk(x["c"][1])) or \
+                        any(y["k"] == "StringLiteral" and y.get("s") == "\\" for y in walk(x["c"][1]))
+                    if has_find and bs:
+                        ok_guard = True
+            stmts = body.get("c", []) if body["k"] == "CompoundStmt" else [body]
+            for s_ in stmts:
+                if s_ is not None and s_["k"] == "CXXOperatorCallExpr" and s_.get("op") == "<<":
+                    a = strip_casts(call_args(s_)[1])
+                    if a is not None and a["k"] in ("CXXOperatorCallExpr", "UnaryOperator", "DeclRefExpr"):
+                        ok_char = True
+        if not loops:
+            raise AnalysisBroken("operator<<(ostream&, const escape&): no loop over the string found - the copy idiom is "
+                                 "not one the rule can read")
+        ctx.ob("R-RXESC/E2", "escape: backslash inserted exactly for members of specials", ok_guard, e.loc(),
+               "the `\\\\` insertion is guarded by a lookup in specials")
+        ctx.ob("R-RXESC/E2", "escape: every character is copied", ok_char, e.loc(),
+               "the character itself is inserted on every iteration")
     # ---- E3
     w = P.fn1("abigail::tools_utils::gen_suppr_spec_from_kernel_abi_whitelists")
     ctx.analysed(w)
@@ -115,5 +125,153 @@ def run(ctx):
         ctx.ob("R-RXESC/E3", "whitelist: %s(<generate_from_strings>)" % w.decl(n)["n"], ok, w.loc(n),
                "argument `%s` is the generated pattern" % expr_str(w, a) if ok else
                "a regex string is set from `%s`, which does not come from generate_from_strings" % expr_str(w, a))
+    check_keepdrop(ctx)
     ctx.assume("keep/drop selection semantics (which declarations the compiled pattern then matches) is runtime; "
                "user-supplied --keep/--drop patterns are compiled unmodified by design")
+
+
+
+def _escape_chunked(ctx, e, finds):
+    """idiom B.  Obligations: (1) every search for the next special resumes at the first character not yet written
+    (the variable that was set to `pos + 1` - not one past it, not `pos`), (2) the run before the special and the
+    tail are written from that same variable, (3) the special itself is written after a backslash."""
+    def var(n):
+        n = strip_casts(n)
+        return n.get("d") if n is not None and n["k"] == "DeclRefExpr" else None
+    # pos: the variable(s) receiving find_first_of
+    pos_vars = set()
+    for n in e.nodes():
+        if n["k"] == "VarDecl" and n.get("c") and n["c"][0] is not None and any(x["i"] in {f_["i"] for f_ in finds} for x in walk(n["c"][0])):
+            pos_vars.add(n.get("d"))
+        if n["k"] == "BinaryOperator" and n.get("op") == "=" and any(x["i"] in {f_["i"] for f_ in finds} for x in walk(n["c"][1])):
+            pos_vars.add(var(n["c"][0]))
+    # start: variables assigned `pos + 1`
+    start_vars = set()
+    for n in e.nodes():
+        if n["k"] == "BinaryOperator" and n.get("op") == "=":
+            r = strip_casts(n["c"][1])
+            if r is not None and r["k"] == "BinaryOperator" and r.get("op") == "+" and var(r["c"][0]) in pos_vars and \
+                    strip_casts(r["c"][1]) is not None and strip_casts(r["c"][1]).get("v") == 1:
+                start_vars.add(var(n["c"][0]))
+    if not pos_vars or not start_vars:
+        raise AnalysisBroken("operator<<(ostream&, const escape&): find_first_of is used but the pos / start variables of "
+                             "the chunked copy idiom could not be identified")
+    seen = 0
+    for f_ in finds:
+        a = call_args(f_)
+        if len(a) < 2 or (strip_casts(a[1]) or {}).get("k") == "CXXDefaultArgExpr" or \
+                (strip_casts(a[1]) or {}).get("v") == 0:
+            continue          # the initial search from the beginning
+        seen += 1
+        r = strip_casts(a[1])
+        ok = var(r) in start_vars
+        ctx.ob("R-RXESC/E2", "escape: the search for the next special resumes at the first unwritten character", ok,
+               e.loc(f_), "resumes at `%s`" % expr_str(e, r) if ok else
+               "the next search starts at `%s`, not at the variable set to pos + 1: the character right after a special "
+               "is never examined, so two adjacent metacharacters leave the second one unescaped" % expr_str(e, r))
+    if not seen:
+        raise AnalysisBroken("operator<<(ostream&, const escape&): no resumed find_first_of(specials, from) call")
+    writes = [n for n in e.nodes() if n["k"] == "CXXMemberCallExpr" and (e.decl(n) or {}).get("n") == "write"]
+    okw = len(writes) >= 2 and all(any(x["k"] == "DeclRefExpr" and x.get("d") in start_vars for x in walk(call_args(w)[0]))
+                                   for w in writes)
+    ctx.ob("R-RXESC/E2", "escape: every character is copied", okw, e.loc(),
+           "%d write() call(s), each starting at the resume variable (run before a special, and the tail)" % len(writes))
+    bs = False
+    for n in e.nodes():
+        if n["k"] == "CXXOperatorCallExpr" and n.get("op") == "<<":
+            txt = expr_str(e, n)
+            if "'\\\\'" in txt or "92" in txt:
+                if any(x["k"] == "ArraySubscriptExpr" or (x["k"] == "CXXOperatorCallExpr" and x.get("op") == "[]")
+                       for x in walk(n)):
+                    bs = True
+    ctx.ob("R-RXESC/E2", "escape: backslash inserted exactly for members of specials", bs, e.loc(),
+           "each position found by find_first_of(specials) is written as a backslash followed by str[pos]")
+
+
+
+def check_keepdrop(ctx):
+    """R-OPTARITY over the tools + R-KEEPDROP: in abidiff every path from a store into a corpus' keep / drop pattern
+    vectors (get_regex_patterns_of_{fns,vars}_to_{keep,suppress}) reaches corpus::maybe_drop_some_exported_decls()
+    before the function returns - the exported sets were built at load time, before the patterns were known."""
+    from rules import optarity_rule
+    from rules.idref_rule import _passes_on_all_paths
+    P = ctx.program(None)
+    n = optarity_rule.check(ctx, P)
+    ctx.floor("R-OPTARITY", "option branches that read an operand", n, 40)
+    unit = P.units["tools/abidiff.cc"]
+    fs = [f for f in unit.functions if not f.dep and f.cfg() is not None and any(
+        (f.decl(x) or {}).get("n", "").startswith("get_regex_patterns_of_") for x in f.nodes() if x["k"] == "CXXMemberCallExpr")]
+    n_st = 0
+    for f in fs:
+        ctx.analysed(f)
+        for x in f.nodes():
+            if x["k"] == "CXXMemberCallExpr" and (f.decl(x) or {}).get("n") in ("assign", "push_back", "insert"):
+                o = strip_casts(member_call_object(x))
+                if o is None or o["k"] != "DeclRefExpr":
+                    continue
+                init = None
+                for v in f.nodes():
+                    if v["k"] == "VarDecl" and v.get("d") == o.get("d") and v.get("c") and v["c"][0] is not None:
+                        init = v["c"][0]
+                if init is None or not any((f.decl(y) or {}).get("n", "").startswith("get_regex_patterns_of_")
+                                           for y in walk(init) if y["k"] == "CXXMemberCallExpr"):
+                    continue
+                n_st += 1
+                getter = next((f.decl(y) or {}).get("n") for y in walk(init) if y["k"] == "CXXMemberCallExpr" and
+                              (f.decl(y) or {}).get("n", "").startswith("get_regex_patterns_of_"))
+                ok = _reaches_on_all_feasible_paths(f, x, lambda e: e["k"] == "CXXMemberCallExpr" and
+                                                    (f.decl(e) or {}).get("n") == "maybe_drop_some_exported_decls")
+                ctx.ob("R-KEEPDROP", "abidiff %s: patterns stored through %s() are applied to the exported declarations" % (
+                    f.n, getter), ok, f.loc(x),
+                    "every path from the store reaches corpus::maybe_drop_some_exported_decls()" if ok else
+                    "the patterns are stored into the corpus after its exported functions / variables were built and "
+                    "nothing re-applies them: the option has no effect on what is compared")
+    ctx.floor("R-KEEPDROP", "stores into the keep/drop pattern vectors in abidiff", n_st, 4)
+
+
+
+def _reaches_on_all_feasible_paths(f, start, pred):
+    """must-pass-through from `start` to the exit with correlated-branch pruning: the conditions that enclose `start`
+    (it sits in their then-branch) are known true, so a later branch whose condition has one of them as a disjunct can
+    only take its true edge (the tested objects are the read-only option vectors)."""
+    cfg = f.cfg()
+    known = set()
+    prev = start
+    for a in f.ancestors(start):
+        if a["k"] == "IfStmt" and a["c"][1] is not None and any(z["i"] == prev["i"] for z in walk(a["c"][1])):
+            known.add(expr_str(f, a["c"][0]).replace(" ", ""))
+        prev = a
+
+    def disjuncts(c):
+        c = strip_casts(c)
+        if c is not None and c["k"] == "BinaryOperator" and c.get("op") == "||":
+            return disjuncts(c["c"][0]) + disjuncts(c["c"][1])
+        return [expr_str(f, c).replace(" ", "")] if c is not None else []
+    w = cfg.where(start)
+    if w is None:
+        return False
+    seen, stack = set(), [(w[0], w[1] + 1)]
+    while stack:
+        b, i = stack.pop()
+        blk = cfg.blocks[b]
+        if any(pred(e) for e in blk.elems[i:]):
+            continue
+        if b == cfg.exit:
+            return False
+        succs = [(idx, s_) for idx, s_ in enumerate(blk.succs) if s_ is not None and s_ in cfg.blocks]
+        br = cfg.branch(b)
+        if br is not None:
+            forced = None
+            for c in cfg.branch_conds(b):
+                # in clang's split form each operand of || is a branch of its own: operand true -> true edge
+                if any(d in known for d in disjuncts(c)):
+                    forced = 0
+            if forced is not None:
+                succs = [(idx, s_) for idx, s_ in succs if idx == forced]
+        if not succs and b != cfg.exit:
+            continue
+        for idx, s_ in succs:
+            if (s_, 0) not in seen:
+                seen.add((s_, 0))
+                stack.append((s_, 0))
+    return True
